@@ -60,6 +60,16 @@ def gen_cases(rng, tier):
             if t[0] == 't' and rng.random() < 0.6:
                 h += ['t%d' % rng.choice([1, 40, 400]), 'q']
         cases.append(dict(sub, id='c07-dyn-%d' % i, hist=h, tags={'kind': 'dynamic-macro'}))
+    # the processing loop itself: before every millisecond the loop asks can_block_update_idle_waiting; a run that honours the
+    # answer (B1: blocked milliseconds run no tick) must be indistinguishable from one that ticks regardless (B0)
+    import checks.c08 as c08
+    base = [c for c in cases if c['tags'].get('kind') == 'all-profile'][:(60 if tier == 'quick' else 1500)]
+    base += [c for c in c08.gen_cases(rng, 'quick') if c.get('sub') == 'ksim'][:(60 if tier == 'quick' else 160)]
+    for c in base:
+        h = [t for t in c['hist'] if t != 'q']
+        for mode in ('0', '1'):
+            cases.append(dict(c, id='%s-B%s' % (c['id'], mode), hist=['B' + mode] + h + ['t50'], loop_pair=c['id'], loop_mode=mode,
+                              tags={'kind': 'loop-mode-B' + mode}))
     return cases
 
 
@@ -111,10 +121,30 @@ def post(all_results, run_impl, rng, tier, stats):
                         h2 = hist[:pos + 1] + ['t%d' % K] + hist[pos + 1:]
                         variants.append((dict(c, id='%s-blk%d-%d' % (c['id'], pos, K), hist=h2), c, it, tick, K))
                 qi += 1
-    if not variants:
-        return []
-    res = run_impl('ksim', [v[0] for v in variants], 'paired')
     out = []
+    # loop-mode pairs: honouring can-block vs ticking regardless
+    by = {c['id']: (c, it) for c, it, mt in all_results}
+    npairs = 0
+    for cid, (c, it) in by.items():
+        if c.get('loop_mode') != '1' or not it or it[0].startswith('PARSE'):
+            continue
+        other = by.get(c['loop_pair'] + '-B0')
+        if not other or not other[1]:
+            continue
+        npairs += 1
+        # the number of layout states is bookkeeping (a finished state is swept by the next tick that runs): not compared
+        a = [re.sub(r' nstates=\d+', '', l) for l in it]
+        b = [re.sub(r' nstates=\d+', '', l) for l in other[1]]
+        if a != b:
+            k = 0
+            while k < min(len(a), len(b)) and a[k] == b[k]:
+                k += 1
+            out.append((c, it, None, 'blocking whenever can_block_update_idle_waiting allows it changes the behaviour: blocking run [%s], always-ticking run [%s]'
+                        % (a[k] if k < len(a) else '<end>', b[k] if k < len(b) else '<end>')))
+    stats['loop_pairs'] = npairs
+    if not variants:
+        return out
+    res = run_impl('ksim', [v[0] for v in variants], 'paired')
     stats['paired_runs'] = len(variants)
     for v, c, it, cut, K in variants:
         it2 = res.get(v['id'])
